@@ -685,11 +685,24 @@ def rule_forward(fx, rep):
     rep.obligation(good)
     if not good:
         bad("clock", "the halfmove clock is not reset to 0 exactly when the move captures or moves a pawn")
+    # (e) the clock (and the move counter, the side to move, the e.p. target) is updated in ONE place per move: no second function
+    # on make_move's call cone writes the same field (a helper that also touches the clock makes the two updates compose wrongly)
+    cone = fx.cone([bm.name])
+    for fld in ("halfmove_clock", "plies", "player", "en_passant_target"):
+        n += 1
+        writers = sorted({norm(b2.name) for nm2 in cone for b2 in [fx.bodies[nm2]] if b2.kind in ("Fn", "AssocFn") and
+                          any(adt == gh.GAME and f2 == fld for (wb, wi, adt, f2, kind, place) in b2.field_writes())})
+        good = len(writers) <= 1
+        rep.obligation(good)
+        if not good:
+            bad(f"single-writer/{fld}", f"Game.{fld} is written by more than one function while a move is made: {writers}; the updates compose (e.g. a reset in a helper followed by make_move's own increment)")
     rep.rule("C02-FORWARD", n, 11, ok, "forward rules: rights loss table, e.p. target / victim, promotion placement, clock reset")
 
 
 G = "src/chess/game.rs"
 MUTANTS = [
+    {"name": "losing a castling right also resets the halfmove clock (seed C02-4b)", "expect": "C02-FORWARD/single-writer/halfmove_clock",
+     "edits": [("src/chess/game.rs", "        castle_rights.remove_rights(castle_rights_side);\n", "        castle_rights.remove_rights(castle_rights_side);\n        self.halfmove_clock = 0;\n")]},
     {"name": "benign: destination piece chosen with map_or, clock still tested on the lifted piece", "benign": True,
      "edits": [("src/chess/game.rs", "        if let Some(promoted_to) = mv.promotion() {\n            let promoted_piece = Piece::new(player, promoted_to.piece());\n            self.set_at(to, promoted_piece);\n        } else {\n            self.set_at(to, moved_piece);\n        }",
                 "        let placed_piece = mv.promotion().map_or(moved_piece, |promoted_to| Piece::new(player, promoted_to.piece()));\n        self.set_at(to, placed_piece);")]},
